@@ -12,7 +12,7 @@ if [ "$1" = "--recheck" ]; then
   trap 'git -C /repo worktree remove --force "$wt" 2>/dev/null; rm -rf "$wt"' EXIT
   (cd "$wt" && git apply "$d/patch.diff") || { echo "patch does not apply to current HEAD"; exit 7; }
   (cd "$wt" && go build ./... 2>&1 | grep -v 'ld:\|^#' | head -3)
-  /verif/bin/verifchk -prop "$prop" -tier quick -repo "$wt" -verif /verif -no-evidence > "$wt/.check.log" 2>&1; rcq=$?
+  ${VERIFBIN:-/verif/bin/verifchk} -prop "$prop" -tier quick -repo "$wt" -verif /verif -no-evidence > "$wt/.check.log" 2>&1; rcq=$?
   grep -E 'VIOLATED|UNDECIDED|BROKEN' "$wt/.check.log" | cut -c1-300 | head -4
   rules=$(grep -E 'VIOLATED|UNDECIDED' "$wt/.check.log" | grep -oE 'rule=[A-Z0-9-]+' | sort -u | paste -sd, )
   python3 - "$d" "$rcq" "$rules" <<'PY'
@@ -38,7 +38,7 @@ echo "== build"; (cd "$wt" && go build ./... 2>&1 | grep -v 'ld:\|^#' | head -5)
 echo "== full test suite with the change (must pass)"; (cd "$wt" && go test -vet=off -count=1 ./... >"$wt/.suite.log" 2>&1); rs=$?; grep -E '^(FAIL|---)' "$wt/.suite.log" | head
 echo "== demo with the change (must fail)"; run_demo; r1=$?; grep -E 'FAIL|panic|DATA RACE|Error' "$wt/.demo.log" | head -5
 echo "== check $prop against the changed tree"
-VERIF_REPO="$wt" /verif/bin/verifchk -prop "$prop" -tier quick -repo "$wt" -verif /verif -no-evidence > "$wt/.check.log" 2>&1; rcq=$?
+VERIF_REPO="$wt" ${VERIFBIN:-/verif/bin/verifchk} -prop "$prop" -tier quick -repo "$wt" -verif /verif -no-evidence > "$wt/.check.log" 2>&1; rcq=$?
 grep -E 'VIOLATED|UNDECIDED|BROKEN' "$wt/.check.log" | cut -c1-260 | head -6; tail -1 "$wt/.check.log"
 echo "RESULT name=$name demo_clean_rc=$r0 suite_rc=$rs demo_mutant_rc=$r1 check_rc=$rcq"
 if [ $r0 -eq 0 ] && [ $rs -eq 0 ] && [ $r1 -ne 0 ]; then
